@@ -173,10 +173,11 @@ func C18Generate() {
 		}
 		if !dry {
 			vrt.Assert("written-once", nWrite == 1)
-			w := lastEffect("WriteFile")
-			vrt.Assert("write-path", vrt.EffectStr(w, 0) == outPath)
-			vrt.Assert("write-content-is-result", vrt.EffectStr(w, 1) == string(res))
-			vrt.Assert("write-mode", vrt.EffectInt(w, 2) == 0644)
+			if w := lastEffect("WriteFile"); w >= 0 {
+				vrt.Assert("write-path", vrt.EffectStr(w, 0) == outPath)
+				vrt.Assert("write-content-is-result", vrt.EffectStr(w, 1) == string(res))
+				vrt.Assert("write-mode", vrt.EffectInt(w, 2) == 0644)
+			}
 		}
 	} else {
 		// an error is reported only for formatter or write failures; a write is attempted only
